@@ -47,6 +47,15 @@ def programs(tier):
     out.append(("concurrent-buffer", prog(3, [fixed("a", 1), fixed("b", 1), new("ConcurrentBuffer", "bf", name="bf", initial_level=2, lower_bound=0, upper_bound=2),
                                               con("TaskUnloadBuffer", "u", task=R("a"), buffer=R("bf"), quantity=2),
                                               con("TaskLoadBuffer", "u2", task=R("b"), buffer=R("bf"), quantity=1)]), "quantified"))
+    for watched in ("w", "v"):
+        out.append((f"min-utilization-select/{watched}", prog(2, [fixed("a", 2), worker("w"), worker("v"), select("s", ["w", "v"]), req("a", "s"),
+                                                                  new("IndicatorResourceUtilization", "i", resource=R(watched)),
+                                                                  new("ObjectiveMinimizeIndicator", "o", target=R("i"), weight=1)]), "lia"))
+    out.append(("two-max-objectives", prog(3, [fixed("a", 1), fixed("b", 1), worker("w"), req("a", "w"), req("b", "w"),
+                                               new("IndicatorFromMathExpression", "i1", name="i1", expression=E(["start", "a"])),
+                                               new("IndicatorFromMathExpression", "i2", name="i2", expression=E(["-", 4, ["end", "b"]])),
+                                               new("ObjectiveMaximizeIndicator", "o1", target=R("i1"), weight=1),
+                                               new("ObjectiveMaximizeIndicator", "o2", target=R("i2"), weight=2)]), "lia"))
     out.append(("infeasible-by-constraint", prog(3, [fixed("a", 2), fixed("b", 2), con("TasksDontOverlap", "c", task_1=R("a"), task_2=R("b"))]), "lia"))
     if tier == "thorough":
         out.append(("nonconcurrent-buffer", prog(3, [fixed("a", 1), fixed("b", 1), new("NonConcurrentBuffer", "bf", name="bf", initial_level=1, lower_bound=0),
